@@ -15,6 +15,7 @@ import (
 // blocks; both copies are then spent. Every block goes through the real ValidateBlock; the verdict is the trace
 // checker's (created twice / spent twice).
 func directedLegacyAlias(b *harness.B) {
+	b.Count("directed_legacy_alias_histories_run", 1)
 	rng := b.SubRng("legacy-alias")
 	net := chaingen.GenNet(rng, "legacywin", 9000+b.Batch)
 	c := chaingen.NewChain(net, rng)
